@@ -120,9 +120,20 @@ def run_unit(args):
         unit_done = threading.Event()
 
         def _watchdog():
-            if unit_done.wait(budget + 2):
-                return
             import z3 as _z3
+            # (a) a single solver call far beyond any configured per-query timeout (200 s quick / 800 s thorough; the longest configured retry is 160 s / 640 s) is cancelled: it comes back
+            #     'unknown' and is handled like every other undecided query; (b) once the unit's budget is spent every call is cancelled
+            cap = 200.0 if tier == 'quick' else 800.0
+            t_end = time.time() + budget + 2
+            while time.time() < t_end:
+                if unit_done.wait(2):
+                    return
+                st = core.CALL_STARTED[0]
+                if st is not None and time.time() - st > cap:
+                    try:
+                        _z3.main_ctx().interrupt()
+                    except Exception:
+                        pass
             for _ in range(200):
                 try:
                     _z3.main_ctx().interrupt()
